@@ -770,7 +770,7 @@ impl Accept {
 //@insert arm_end="Ok(io) =>"
                     // an accepted connection is handed to the dispatcher, exactly once — never dropped on the floor   [C01]
                     assert(r24_trace.len() == t0 + 1);   // [C01]
-//@insert before="return;"
+//@insert after="self.set_timeout(TIMEOUT_DURATION_ON_ERROR);"
                     assert(info.timeout.is_some() && info.timeout.unwrap().t() == now_spec() + 500 * 1_000_000);   // [C05] ~500 ms back-off
                     assert(!info.lst.registered());   // [C05]
                     assert(self.timeout.is_some() && self.timeout.unwrap().ns() <= 510 * 1_000_000);   // [C05] the poll wakes up in time
